@@ -1379,7 +1379,7 @@ func runPipeCase(c pipeCase, sec *vh.Section) {
 		res.Note("pipes: %v", err)
 		return
 	}
-	defer srv.Stop()
+	defer func() { srv.Stop() }() // srv is replaced by the restart below
 	ctx := context.Background()
 	if _, err := srv.Exec("create pipe pv from src=1"); err != nil {
 		res.Note("pipes: create pipe: %v", err)
@@ -1419,55 +1419,92 @@ func runPipeCase(c pipeCase, sec *vh.Section) {
 	if derr != nil {
 		res.Fatal(args.Out, "driver: %v", derr)
 	}
-	// wait until the copies have arrived (progress based; events a starting worker lost to the library's tail race are C10's)
-	var qr api.QueryResult
-	last, lastChange := -1, time.Now()
-	for time.Since(lastChange) < 8*time.Second {
-		qr = api.QueryResult{}
-		if err := srv.Client.Query(ctx, &api.QueryRequest{Query: "select from {logrange.pipe=pv} limit 1000", Limit: 1000}, &qr); err == nil && qr.Err == nil {
-			if len(qr.Events) != last {
-				last, lastChange = len(qr.Events), time.Now()
+	// waitAndCheck: wait until `expect` copies have arrived (progress based; events a starting worker lost to the library's tail
+	// race are C10's), then judge every copy whose message is in `only`
+	waitAndCheck := func(phase string, expect int, only map[string]bool) {
+		var qr api.QueryResult
+		last, lastChange := -1, time.Now()
+		for time.Since(lastChange) < 8*time.Second {
+			qr = api.QueryResult{}
+			if err := srv.Client.Query(ctx, &api.QueryRequest{Query: "select from {logrange.pipe=pv} limit 1000", Limit: 1000}, &qr); err == nil && qr.Err == nil {
+				if len(qr.Events) != last {
+					last, lastChange = len(qr.Events), time.Now()
+				}
+				if len(qr.Events) >= expect {
+					break
+				}
 			}
-			if len(qr.Events) >= len(order) {
-				break
+			time.Sleep(50 * time.Millisecond)
+		}
+		res.Dist(sec, fmt.Sprintf("%s:arrived=%d/%d", phase, len(qr.Events), expect))
+		for _, ev := range qr.Events {
+			e := exps[ev.Message]
+			if e == nil || !only[ev.Message] {
+				continue
+			}
+			i, _ := strconv.Atoi(strings.SplitN(ev.Message, ".", 2)[0])
+			res.Eval(sec, e.line+"/"+ev.Message)
+			// SPEC: the piped event carries its own fields followed by the names and values of the source's tag set, in the order
+			// of the source's tag line (= field.Parse of the line the system emits for the source)
+			want := string(e.evb)
+			for _, kv := range [][]string{flatSorted(e.m)} {
+				for _, x := range kv {
+					want += string([]byte{byte(len(x))}) + x
+				}
+			}
+			got, perr := fieldsParse(ev.Fields)
+			modelItems := kvField(outs[i], "items")
+			wantModel := vh.HxS(string(e.evb) + string(vh.UnHx(modelItems)))
+			if perr == nil && vh.HxS(string(got)) != wantModel && first(outs[i]) == "same" {
+				res.Mismatch(vh.Mismatch{Section: "pipes", Function: "pipe.worker provenance fields (" + phase + ")", Input: c, Impl: vh.HxS(string(got)), Model: wantModel})
+			}
+			if perr != nil || string(got) != want {
+				wi, _ := decodeFields(want)
+				gi, _ := decodeFields(string(got))
+				res.SpecFail(vh.SpecFailure{Section: "pipes", Kind: "provenance-differs", Input: map[string]interface{}{"case": c, "message": ev.Message, "phase": phase}, Impl: fmt.Sprintf("Fields=%q → %q err=%v", ev.Fields, gi, perr), Spec: fmt.Sprintf("%q", wi),
+					What: "the fields of a piped event (" + phase + ") are not its own fields followed by the names and values of the source's tag set in the order of the source's tag line"})
 			}
 		}
-		time.Sleep(50 * time.Millisecond)
 	}
-	res.Dist(sec, fmt.Sprintf("arrived=%d/%d", len(qr.Events), len(order)))
-	for _, ev := range qr.Events {
-		e := exps[ev.Message]
-		if e == nil {
-			continue
-		}
-		i, _ := strconv.Atoi(strings.SplitN(ev.Message, ".", 2)[0])
-		res.Eval(sec, e.line+"/"+ev.Message)
-		// SPEC: the piped event carries its own fields followed by the names and values of the source's tag set, in the order
-		// of the source's tag line (= field.Parse of the line the system emits for the source)
-		want := string(e.evb)
-		for _, kv := range [][]string{flatSorted(e.m)} {
-			for _, x := range kv {
-				want += string([]byte{byte(len(x))}) + x
-			}
-		}
-		got, perr := fieldsParse(ev.Fields)
-		modelItems := kvField(outs[i], "items")
-		wantModel := vh.HxS(string(e.evb) + string(vh.UnHx(modelItems)))
-		if perr == nil && vh.HxS(string(got)) != wantModel && first(outs[i]) == "same" {
-			res.Mismatch(vh.Mismatch{Section: "pipes", Function: "pipe.worker provenance fields", Input: c, Impl: vh.HxS(string(got)), Model: wantModel})
-		}
-		if perr != nil || string(got) != want {
-			wi, _ := decodeFields(want)
-			gi, _ := decodeFields(string(got))
-			res.SpecFail(vh.SpecFailure{Section: "pipes", Kind: "provenance-differs", Input: map[string]interface{}{"case": c, "message": ev.Message}, Impl: fmt.Sprintf("Fields=%q → %q err=%v", ev.Fields, gi, perr), Spec: fmt.Sprintf("%q", wi),
-				What: "the fields of a piped event are not its own fields followed by the names and values of the source's tag set in the order of the source's tag line"})
-		}
+	firstPhase := map[string]bool{}
+	for _, m := range order {
+		firstPhase[m] = true
 	}
+	waitAndCheck("live", len(order), firstPhase)
+	// a RESTART between two writes to the same sources: the pipe's source descriptors are loaded from disk now (not met through
+	// a write event); what the workers add to the copies must still be the sources' names and values
+	srv.Stop()
+	srv, err = lrsrv.Start(dir, lrsrv.Opts{WriteFlushMs: 40})
+	for try := 0; err != nil && try < 10 && strings.Contains(err.Error(), "address already in use"); try++ {
+		srv, err = lrsrv.Start(dir, lrsrv.Opts{WriteFlushMs: 40})
+	}
+	if err != nil {
+		res.Note("pipes: restart skipped (infrastructure): %v", err)
+		return
+	}
+	res.Dist(sec, "restart")
+	second := map[string]bool{}
+	for i, m := range c.Sources {
+		e0 := exps[fmt.Sprintf("%d.0", i)]
+		msg := fmt.Sprintf("%d.2", i)
+		var wr api.WriteResult
+		err := srv.Client.Write(ctx, e0.line, "", []*api.LogEvent{{Timestamp: int64(i*10 + 3), Message: msg, Fields: c.EvFlds[i]}}, &wr)
+		if err == nil {
+			err = wr.Err
+		}
+		if err != nil {
+			res.Note("pipes: write after restart %q: %v", e0.line, err)
+			return
+		}
+		exps[msg] = &exp{set: e0.set, line: e0.line, evb: e0.evb, m: m}
+		second[msg] = true
+	}
+	waitAndCheck("after-restart", len(order)+len(second), second)
 }
 
 func sectionPipes(rng *vh.Rng) {
 	sec := res.Section("pipes", "system-correspondence",
-		"in-process server, a pipe `from src=1`, three source partitions with 5..7 Safe tags each (values with separators, quotes, blanks, non-ASCII, empty), two events per source with and without own fields; the copies read from {logrange.pipe=pv}: Fields must parse to the event's own fields followed by the source's names and values in tag-line order (SPEC), the provenance part must be the model's field.Parse(line) (MODEL). One worker start per source. non-trivial = every arrived copy, distinct by (source line, message)")
+		"in-process server, a pipe `from src=1`, three source partitions with 5..7 Safe tags each (values with separators, quotes, blanks, non-ASCII, empty), two events per source with and without own fields; the copies read from {logrange.pipe=pv}: Fields must parse to the event's own fields followed by the source's names and values in tag-line order (SPEC), the provenance part must be the model's field.Parse(line) (MODEL); then a clean RESTART and one more event per source (the pipe's source descriptors come from disk now): same demands on the new copies. non-trivial = every arrived copy, distinct by (source line, message)")
 	n := 4
 	if args.Thorough {
 		n = 40
